@@ -756,6 +756,21 @@ class Program:
                 if len(cands) == 1:
                     return cands[0]
                 if len(cands) > 1:
+                    # disambiguate on the trait's generic arguments (From<&T> vs From<T>, ...)
+                    def targs(t):
+                        t = re.sub(r"'[a-z_]+ ?", "", t or "")
+                        i = t.find("<")
+                        if i < 0:
+                            return ""
+                        inner = t[i + 1:t.rfind(">")]
+                        refs = len(inner) - len(inner.lstrip("&"))
+                        return "&" * refs + last_ident(inner)
+                    want = targs(trait)
+                    ex = [f for f in cands if targs(getattr(f, "impl_trait", "")) == want]
+                    if len(ex) == 1:
+                        return ex[0]
+                    if len(ex) > 1:
+                        cands = ex
                     # disambiguate on full self type text
                     ex = [f for f in cands if strip_generics(f.impl_self).split("::")[-1] == strip_generics(ty).split("::")[-1]]
                     if len(ex) >= 1:
@@ -1678,6 +1693,7 @@ class Engine:
         c = self.norm_cache.get(callee)
         if c is None:
             c = callee.replace("std::io::", "io::")
+            c = re.sub(r"\b(?:std|alloc)::(slice|str|num|array)::<impl", r"core::\1::<impl", c)
             c = self._re_stdpath.sub("", c)
             self.norm_cache[callee] = c
         return c
@@ -1701,8 +1717,15 @@ class Engine:
             return self.call_value(fv, args, frame)
         return self.call_named(t.callee, args, frame)
 
+    _re_ref_cmp = re.compile(r"^<&(?:'[a-z_]+ )?(?:mut )?(.*) as (PartialEq|PartialOrd|Ord)(<&(?:'[a-z_]+ )?(?:mut )?(.*)>)?>::(eq|ne|cmp|partial_cmp|lt|le|gt|ge)$")
+
     def call_named(self, callee, args, frame=None):
         callee = self.normalize(callee)
+        m = self._re_ref_cmp.match(callee)
+        if m and len(args) == 2 and all(isinstance(a, Ref) and isinstance(a.cell.v, Ref) for a in args):
+            # std's `impl PartialEq<&B> for &A` forwards to the impl on the referents
+            inner = "<%s as %s%s>::%s" % (m.group(1), m.group(2), ("<%s>" % m.group(4)) if m.group(4) and m.group(4) != m.group(1) else "", m.group(5))
+            return self.call_named(inner, [a.cell.v for a in args], frame)
         model = self.find_model(callee)
         if model is not None:
             self.stats.calls_modelled[callee] = self.stats.calls_modelled.get(callee, 0) + 1
